@@ -154,6 +154,88 @@ def resolve0(l_default: bool, r_mode: int, m_default: bool, d_disabled: bool, k:
     return untraced(_case, bits, tokens, False)
 
 
+# ---- strict parsing: the default sub-command is entered also when the line does not fit its arguments (the failure is then ITS parse error)
+def _strict_app():
+    from clikit.api.args.format.argument import Argument
+    cfg = ApplicationConfig("app", "1.0")
+    cfg.set_command_resolver(DefaultResolver())
+    r = cfg.create_command("remote")
+    r.add_alias("rem")
+    show = r.create_sub_command("show")
+    show.default()
+    show.add_argument("name", Argument.REQUIRED)
+    r.create_sub_command("add").add_argument("url", Argument.OPTIONAL)
+    top = cfg.create_command("top")
+    top.default()
+    top.add_argument("need", Argument.REQUIRED)
+    cfg.create_command("other")
+    return ConsoleApplication(cfg)
+
+
+# (tokens, what resolve_command answers: the selected command, or the parse error OF the selected command - its missing argument names it)
+STRICT_LINES = [([], ("CannotParseArgsException", '"need"')), (["-x"], ("NoSuchOptionException", "-x")), (["remote"], ("CannotParseArgsException", '"name"')), (["rem"], ("CannotParseArgsException", '"name"')),
+                (["remote", "--"], ("CannotParseArgsException", '"name"')), (["remote", "--", "a", "b"], ("CannotParseArgsException", "Too many")),
+                (["remote", "add"], "remote add"), (["remote", "add", "u", "v"], ("CannotParseArgsException", "Too many")), (["other", "p"], ("CannotParseArgsException", "Too many")),
+                (["remote", "show"], ("CannotParseArgsException", '"name"')), (["remote", "show", "n"], "remote show"), (["remote", "n"], "remote show"), (["top", "n"], "top"), (["n"], ("CannotResolveCommandException", "n")),
+                (["remote", "--", "n"], "remote show"), (["--", "n"], "top")]
+
+
+def _strict_case(i, as_string):
+    from clikit.api.args.exceptions import CannotParseArgsException, NoSuchOptionException
+    tokens, want = STRICT_LINES[i]
+    app = _strict_app()
+    raw = StringArgs(" ".join(tokens)) if as_string else ArgvArgs(["prog"] + tokens)
+    try:
+        got = app.resolve_command(raw).command.full_name
+    except (CannotParseArgsException, NoSuchOptionException, CannotResolveCommandException) as e:
+        return isinstance(want, tuple) and type(e).__name__ == want[0] and want[1] in str(e)
+    return got == want
+
+
+def resolve_strict(i: int, as_string: bool) -> bool:
+    """
+    pre: 0 <= i < len(STRICT_LINES)
+    post: _
+    """
+    return untraced(_strict_case, conc_int(i, 0, len(STRICT_LINES) - 1), conc_bool(as_string))
+
+
+# ---- commands added to a running application (after it has resolved something) are found by name AND by alias, at every level
+def _late_case(first, where, spell):
+    from clikit.api.command.command import Command
+    from clikit.api.config.command_config import CommandConfig
+    tree = make_tree((False, False, False, False, False, False, False, False))
+    app = build_app(tree)
+    if first == 1:
+        app.resolve_command(ArgvArgs(["prog", "s", "a"]))
+    elif first == 2:
+        try:
+            app.resolve_command(ArgvArgs(["prog", "nope"]))
+        except CannotResolveCommandException:
+            pass
+    cc = CommandConfig("late")
+    cc.add_alias("lt")
+    cc.add_alias("l-8")
+    cc.enable_lenient_args_parsing()
+    if where == 0:
+        app.add_command(cc)
+        path, want = [], "late"
+    else:
+        parent = app.get_command("s")
+        parent.add_sub_command(cc)
+        path, want = ["sv" if spell == 2 else "s"], "s late"
+    token = ["late", "lt", "l-8"][spell]
+    return app.resolve_command(ArgvArgs(["prog"] + path + [token, "x"])).command.full_name == want
+
+
+def resolve_late(first: int, where: int, spell: int) -> bool:
+    """
+    pre: 0 <= first <= 2 and 0 <= where <= 1 and 0 <= spell <= 2
+    post: _
+    """
+    return untraced(_late_case, conc_int(first, 0, 2), conc_int(where, 0, 1), conc_int(spell, 0, 2))
+
+
 def resolve_twin(k2: int, k3: int, r_mode: int, l_default: bool, x_default: bool, a_disabled: bool, m_default: bool) -> bool:
     """
     pre: 0 <= k2 < len(MENU) and 0 <= k3 < len(MENU)
@@ -191,5 +273,9 @@ def conditions(tier):
             for k2 in (2, 3, 4, 5):      # 'a', 'ad', 'l', 'x'  (paths that reach depth 2-3)
                 conds.append({"name": "resolve4[%r,%r]" % (MENU[k1], MENU[k2]), "fn": resolve4, "timeout": t, "part": {"k1": k1, "k2": k2},
                               "bounds": "tokens %r %r + 2 more from the menu; 6 tree attribute bits" % (MENU[k1], MENU[k2])})
+    conds.append({"name": "resolve_strict", "fn": resolve_strict, "timeout": t,
+                  "bounds": "strictly parsing application (default command and default sub-command with a REQUIRED argument): %d lines that do or do not fit the default's arguments, argv and string form" % len(STRICT_LINES)})
+    conds.append({"name": "resolve_late", "fn": resolve_late, "timeout": t,
+                  "bounds": "a command with two aliases added to the application / to a command AFTER the application resolved nothing / a line / an undefined command; named by name and by each alias"})
     conds.append({"name": "resolve_twin", "fn": resolve_twin, "timeout": t, "expect": "refute", "part": {"k1": 1}, "bounds": "reachability twin"})
     return conds
